@@ -201,13 +201,19 @@ def run_check(prop, tier, seed, replay=None):
     else:
         ctx.ob('driver:build', False, 'tie', '; '.join(f'{b["file"]}:{b["line"]} {b["message"]}' for b in dbroken[:4]))
     try:
-        mod.run(ctx, lean)
+        try:
+            mod.run(ctx, lean)
+        except Exception:
+            # the correspondence harness itself crashed on this tree (a changed code shape can do that): a broken
+            # obligation, and the failing-input search below still runs on the real code
+            ctx.ob('harness:exception', False, 'tie', traceback.format_exc()[-900:])
         # 5. failing-input search: always in thorough; in quick when something is broken
         if ctx.broken() or tier == 'thorough' or getattr(mod, 'ALWAYS_SEARCH', False) or getattr(ctx, 'pins_moved', None):
             deep = bool(ctx.broken()) or tier == 'thorough' or bool(getattr(ctx, 'pins_moved', None))
-            mod.search(ctx, deep)
-    except Exception:
-        ctx.ob('harness:exception', False, 'tie', traceback.format_exc()[-900:])
+            try:
+                mod.search(ctx, deep)
+            except Exception:
+                ctx.ob('harness:search-exception', False, 'tie', traceback.format_exc()[-900:])
     finally:
         if lean is not None:
             lean.close()
